@@ -58,6 +58,10 @@ def part_a(ctx):
     for it in range(ctx.n(150, 3000)):
         small = r.random() < 0.6
         recs = gen_records(r, small)
+        if r.random() < 0.3:
+            # contig numbers at the edge of an integer type (a header with 128 / 129 / 32768 ... contigs, records on the last ones)
+            shift = r.choice([127, 126, 128, 255, 32767, 32768]) - max(x[0] for x in recs)
+            recs = [(c + shift, p_, l_) for c, p_, l_ in recs]
         n = len(recs)
         dts = []
         for col in range(3):
